@@ -102,6 +102,7 @@ var c13ReadAfterStop = map[string]map[string]bool{
 
 type c13Snap struct {
 	Ptr      uintptr
+	kinds    map[string]reflect.Kind // kind of each Conf field (for the wiring check)
 	Conf     map[string]string
 	Refs     map[string]string
 	BackRefs map[string]string
@@ -244,6 +245,7 @@ func c13SnapOne(role string, comp any, inst map[string]any, into *c13Snap, after
 			into.Refs[sf.Name] = c13RefName(rv.Field(i), inst)
 		} else {
 			into.Conf[sf.Name] = c13CanonVal(rv.Field(i), 0)
+			into.kinds[sf.Name] = sf.Type.Kind()
 		}
 	}
 	if afterStop {
@@ -258,6 +260,7 @@ func c13SnapOne(role string, comp any, inst map[string]any, into *c13Snap, after
 	}
 	for _, n := range c13UnexportedConf[role] {
 		into.Conf[n] = c13CanonVal(get(n), 0)
+		into.kinds[n] = get(n).Kind()
 	}
 	for _, n := range c13UnexportedRefs[role] {
 		into.Refs[n] = c13RefName(get(n), inst)
@@ -287,7 +290,7 @@ func c13Live(p *Core) (c13State, map[string]any) {
 			st[role] = nil
 			continue
 		}
-		s := &c13Snap{Ptr: c13PtrOf(comp), Conf: map[string]string{}, Refs: map[string]string{}, BackRefs: map[string]string{}}
+		s := &c13Snap{Ptr: c13PtrOf(comp), kinds: map[string]reflect.Kind{}, Conf: map[string]string{}, Refs: map[string]string{}, BackRefs: map[string]string{}}
 		c13SnapOne(role, comp, inst, s, false)
 		st[role] = s
 	}
@@ -341,4 +344,88 @@ func c13SameParams(a, b *c13Snap) bool {
 		return true
 	}
 	return len(c13DiffMap("", a.Conf, b.Conf, "", "")) == 0 && len(c13DiffMap("", a.Refs, b.Refs, "", "")) == 0
+}
+
+// ---------------------------------------------------------------- (C) wiring by naming convention
+
+// c13RolePrefixes: how configuration fields of a component are prefixed in conf.Conf (e.g. hls.Server.Address is
+// conf.Conf.HLSAddress). A component field F is matched, case-insensitively, against <prefix>F for each prefix and
+// then against F itself (global parameters such as ReadTimeout); the first conf.Conf field of the same kind wins.
+var c13RolePrefixes = map[string][]string{
+	"logger": {"Log"}, "authManager": {"Auth"}, "metrics": {"Metrics"}, "pprof": {"PPROF"}, "playbackServer": {"Playback"},
+	"pathManager": {}, "recordCleaner": {},
+	"rtspServer": {"RTSP"}, "rtspsServer": {"RTSPS", "RTSP"}, "rtmpServer": {"RTMP"}, "rtmpsServer": {"RTMPS", "RTMP"},
+	"hlsServer": {"HLS"}, "webRTCServer": {"WebRTC"}, "srtServer": {"SRT"}, "moqServer": {"MoQ"}, "api": {"API"},
+}
+
+// c13WiringExceptions: component fields that do not follow the convention. Value = the conf.Conf field they carry,
+// "" = not comparable (documented in mediamtx.yml: the secure RTSP listener uses the srtp*/multicastSRT* parameters;
+// the plain listeners carry no certificate; rtspUDPReadBufferSize overrides udpReadBufferSize for RTSP).
+var c13WiringExceptions = map[string]map[string]string{
+	"rtspServer":  {"ServerKey": "", "ServerCert": "", "UDPReadBufferSize": ""},
+	"rtmpServer":  {"ServerKey": "", "ServerCert": ""},
+	"rtspsServer": {"RTPAddress": "SRTPAddress", "RTCPAddress": "SRTCPAddress", "MulticastRTPPort": "MulticastSRTPPort", "MulticastRTCPPort": "MulticastSRTCPPort", "UDPReadBufferSize": ""},
+}
+
+// c13WiringCheck compares every component field that has a namesake in conf.Conf with the value of that
+// configuration field. It returns the mismatches and the number of (component, field) pairs compared.
+func c13WiringCheck(st c13State, cf any) ([]string, int) {
+	cv := reflect.ValueOf(cf)
+	if cv.Kind() == reflect.Pointer {
+		cv = cv.Elem()
+	}
+	ct := cv.Type()
+	find := func(name string, kind reflect.Kind) (reflect.Value, string, bool) {
+		for i := 0; i < ct.NumField(); i++ {
+			if strings.EqualFold(ct.Field(i).Name, name) && ct.Field(i).Type.Kind() == kind {
+				return cv.Field(i), ct.Field(i).Name, true
+			}
+		}
+		return reflect.Value{}, "", false
+	}
+	var out []string
+	n := 0
+	for _, role := range c13Roles {
+		s := st[role]
+		if s == nil {
+			continue
+		}
+		var fields []string
+		for f := range s.Conf {
+			fields = append(fields, f)
+		}
+		sort.Strings(fields)
+		for _, f := range fields {
+			kind, ok := s.kinds[f]
+			if !ok {
+				continue
+			}
+			var cval reflect.Value
+			var cname string
+			found := false
+			if exc, isExc := c13WiringExceptions[role][f]; isExc {
+				if exc == "" {
+					continue
+				}
+				cval, cname, found = find(exc, kind)
+			} else {
+				for _, p := range c13RolePrefixes[role] {
+					if cval, cname, found = find(p+f, kind); found {
+						break
+					}
+				}
+				if !found {
+					cval, cname, found = find(f, kind)
+				}
+			}
+			if !found {
+				continue
+			}
+			n++
+			if want := c13CanonVal(cval, 0); want != s.Conf[f] {
+				out = append(out, fmt.Sprintf("%s.%s = %s but the configuration says %s = %s", role, f, c13Short(s.Conf[f]), cname, c13Short(want)))
+			}
+		}
+	}
+	return out, n
 }
